@@ -218,8 +218,21 @@ fn after_acquire(addr: usize, kind: u8, ok: bool) {
         _ => {}
     }
 }
+/// When set, every lock RELEASE is a scheduling point too (default: acquisitions only). This makes the
+/// window between a thread's last unlock inside an operation and the operation's end visible, at the
+/// price of roughly twice as many scheduling points; harnesses switch it on for selected small programs.
+static RELEASE_POINTS: std::sync::atomic::AtomicBool = std::sync::atomic::AtomicBool::new(false);
+pub fn set_release_points(on: bool) {
+    RELEASE_POINTS.store(on, std::sync::atomic::Ordering::SeqCst);
+}
 fn after_release(addr: usize, kind: u8) {
     let Some((sh, me)) = ctx() else { return };
+    after_release_bookkeeping(&sh, me, addr, kind);
+    if RELEASE_POINTS.load(std::sync::atomic::Ordering::SeqCst) && !std::thread::panicking() {
+        yield_point(&sh, me, Pending::Yield);
+    }
+}
+fn after_release_bookkeeping(sh: &Arc<Shared>, me: usize, addr: usize, kind: u8) {
     let mut st = sh.st.lock().unwrap();
     if let Some(l) = st.locks.get_mut(&addr) {
         match kind {
